@@ -70,6 +70,9 @@ type SigResult struct {
 	MergeReason   string   `json:"merge_reason"`
 	// WriterRefused: git-bug itself refused to write the commit (keys in force, no private key): a valid outcome
 	WriterRefused bool `json:"writer_refused,omitempty"`
+	// what was compared after a write that git-bug refused or failed
+	RefusedRefsCompared int `json:"refused_refs_compared,omitempty"`
+	RefusedBugsReread   int `json:"refused_bugs_reread,omitempty"`
 }
 
 // ---- generator ------------------------------------------------------------------------
@@ -241,6 +244,28 @@ func c08Cases(r *mon.Run) []SigCase {
 					c.Name = fmt.Sprintf("h%d-t%d-%s-%s-%s-%s", hi, t, m.writer, m.sign, kind, c.Reader)
 					out = append(out, c)
 				}
+			}
+		}
+	}
+	// whatever the rotation above left out: git-bug's own writer without the private key, every kind, on a
+	// plain and on a rotated history (a refused write must leave the writer's bugs alone, see c08_refused.go)
+	names := map[string]bool{}
+	for _, c := range out {
+		names[c.Name] = true
+	}
+	hs := fixedHistories()
+	for _, at := range []struct {
+		hi int
+		t  uint64
+	}{{0, 7}, {4, 9}} {
+		h := hs[at.hi]
+		inForce, _ := inForceAt(h, at.t)
+		for _, kind := range kinds {
+			c := SigCase{Versions: h, T: at.t, Writer: "gitbug", Sign: "nokey", SignKey: -1, Kind: kind, Reader: "pubonly", InForce: len(inForce), Intent: "refuse"}
+			c.Rel = "after-last"
+			c.Name = fmt.Sprintf("h%d-t%d-%s-%s-%s-%s", at.hi, at.t, c.Writer, c.Sign, kind, c.Reader)
+			if !names[c.Name] {
+				out = append(out, c)
 			}
 		}
 	}
@@ -421,7 +446,7 @@ func craftBug(rep *world.Replica, c SigCase, keyed, plain identity.Interface, si
 }
 
 // gitbugWrite lets git-bug itself write the commit under test on rep (whose clock is fresh).
-func gitbugWrite(rep *world.Replica, c SigCase, keyedId entity.Id) (string, error) {
+func gitbugWrite(rep *world.Replica, c SigCase, keyedId entity.Id, probe *writeProbe) (string, error) {
 	repo := rep.Repo
 	keyed, err := identity.ReadLocal(repo, keyedId)
 	if err != nil {
@@ -442,6 +467,9 @@ func gitbugWrite(rep *world.Replica, c SigCase, keyedId entity.Id) (string, erro
 		if err != nil {
 			return "", err
 		}
+		if err := probe.before(rep); err != nil {
+			return "", err
+		}
 		if err := b.Commit(repo); err != nil {
 			return "", err
 		}
@@ -458,6 +486,9 @@ func gitbugWrite(rep *world.Replica, c SigCase, keyedId entity.Id) (string, erro
 			return "", err
 		}
 		if _, _, err := bug.AddComment(b, keyed, unix+1, "comment by the keyed author", nil, nil); err != nil {
+			return "", err
+		}
+		if err := probe.before(rep); err != nil {
 			return "", err
 		}
 		if err := b.Commit(repo); err != nil {
@@ -505,6 +536,9 @@ func gitbugWrite(rep *world.Replica, c SigCase, keyedId entity.Id) (string, erro
 			return "", err
 		}
 		if err := b2.Commit(repo); err != nil {
+			return "", err
+		}
+		if err := probe.before(rep); err != nil {
 			return "", err
 		}
 		for m := range bug.MergeAll(repo, world.Resolvers(repo), "x", keyed) {
@@ -649,7 +683,12 @@ func runSigCase(c SigCase) SigResult {
 					}
 				}
 			}
-			bugId, err = gitbugWrite(writer, c, keyed.Id())
+			probe := &writeProbe{}
+			bugId, err = gitbugWrite(writer, c, keyed.Id(), probe)
+			if err != nil && probe.taken {
+				// git-bug refused or failed the write under test: the writer's own bugs must be what they were
+				res.RefusedRefsCompared, res.RefusedBugsReread = probe.after(writer, c.Kind, fmt.Sprintf("%s commit at T=%d by the keyed author (writer mode %s)", c.Kind, c.T, c.Sign), err, fail)
+			}
 			if err != nil && c.Sign == "nokey" && strings.Contains(err.Error(), "no private key is available") {
 				// the editing API refuses to write a commit nobody could accept: nothing to read back
 				res.WriterRefused = true
@@ -829,11 +868,13 @@ func runC08(tier, replay string) int {
 	env := []string{keyPoolEnv + "=" + poolFile}
 
 	if replay != "" {
-		// the three parts have their own case types: tell them apart by their members
+		// the parts have their own case types: tell them apart by their members
 		var probe struct {
 			Case struct {
-				Steps  []json.RawMessage `json:"steps"`
-				Rounds []json.RawMessage `json:"rounds"`
+				Steps    []json.RawMessage `json:"steps"`
+				Rounds   []json.RawMessage `json:"rounds"`
+				Commits  []json.RawMessage `json:"commits"`
+				Delivery string            `json:"delivery"`
 			} `json:"case"`
 		}
 		if data, err := os.ReadFile(replay); err == nil {
@@ -844,6 +885,10 @@ func runC08(tier, replay string) int {
 			return replayOne[TLCase, TLResult](replay, "sigtl", env)
 		case probe.Case.Rounds != nil:
 			return replayOne[CCCase, CCResult](replay, "sigcache", env)
+		case probe.Case.Commits != nil:
+			return replayOne[ChainCase, ChainResult](replay, "sigchain", env)
+		case probe.Case.Delivery != "":
+			return replayOne[PullCase, PullResult](replay, "sigpull", env)
 		}
 		return replayOne[SigCase, SigResult](replay, "sig", env)
 	}
@@ -861,6 +906,16 @@ func runC08(tier, replay string) int {
 	ccs := ccCases(r)
 	collectCacheSessions(r, ccs, runBatches[CCCase, CCResult]("", "sigcache", ccs, 1, 90*time.Second, env))
 	r.Extra("cache_pass_s", time.Since(tStart).Seconds())
+	// fourth part: bugs holding several judged commits (c08_chain.go)
+	tStart = time.Now()
+	chs := chainCases(r)
+	collectChains(r, chs, runBatches[ChainCase, ChainResult]("", "sigchain", chs, 4, 30*time.Second, env))
+	r.Extra("chain_pass_s", time.Since(tStart).Seconds())
+	// fifth part: a pull that needs a merge commit after the user's key change (c08_refused.go)
+	tStart = time.Now()
+	pcs := pullCases()
+	collectPulls(r, pcs, runBatches[PullCase, PullResult]("", "sigpull", pcs, 1, 60*time.Second, env))
+	r.Extra("pull_pass_s", time.Since(tStart).Seconds())
 	var second []SigCase
 	perSite := map[string]int{}
 	for i, oc := range outs {
@@ -876,6 +931,19 @@ func runC08(tier, replay string) int {
 			continue
 		}
 		res := oc.Result
+		if res.RefusedRefsCompared > 0 || res.WriterRefused {
+			r.Count("after_refused_or_failed_write/local_refs_compared", res.RefusedRefsCompared)
+			r.Count("after_refused_or_failed_write/bugs_read_again", res.RefusedBugsReread)
+			r.Seen("refused_write_kinds", c.Kind+"/"+c.Sign)
+		}
+		if res.HarnessError != "" || res.WriterRefused {
+			// what the refused or failed write left behind is reported whatever else became of the case
+			for _, f := range res.Findings {
+				if k, what := splitFinding(f); strings.HasPrefix(k, "refused-write-") {
+					r.Violation(k, what+" [case "+c.Name+"]", c)
+				}
+			}
+		}
 		if res.HarnessError != "" {
 			r.Case("harness-error", false)
 			r.Inconclusive("case " + c.Name + ": " + res.HarnessError)
@@ -954,8 +1022,12 @@ func runC08(tier, replay string) int {
 	r.Extra("exhaustive", false)
 	return r.Finish("pairs (identity version history with 1..4 versions adding/removing/rotating 0..2 keys at steered bugs-edit times) x (commit at every T from first-1 to last+1) x (crafted: unsigned, right key, second right key, removed key, not-yet-valid key, stranger's key, altered tree, altered timestamp; git-bug itself: private key available / not available) x (create, append, empty merge commit) x (reader with public keys only / reader resolving the author to an in-memory identity holding private keys); expectation from the independent model over the raw version blobs and the raw commit object; observed = bug.Read error and bug.MergeAll status on the second replica; non-trivial = every conclusive pair; distinct = (versions, keys in force, relation of T to the version times, writer, signing mode, kind, reader, expectation)"+
 		" || timeline scripts: the keyed author edits its identity in several steps (Mutate of keys / of the profile, SetMetadata, Commit now or later, first version still pending) while a keyless author's commits or witnessed times move the edit clock and the author itself writes signed commits in between; the harness records (clock value at the Mutate that changed the key set, new key set); crafted commits (unsigned, every key of the history, a stranger's key) at c-1, c, c+1 of every change and the author's own commits are read and merged on a second replica; expected = key model over that timeline, no expectation where reading a change at clock value c as 'from c' or 'from c+1' gives different verdicts; also ValidKeysAtTime of the stored identity against the timeline; one case per script, distinct = sequence of step kinds"+
-		" || long-lived cache sessions: a victim keeps one RepoCache open, pulls and loads a bug of the keyed author, then the author changes keys in 1..3 rounds on another replica and pushes the new identity version with commits in its name at c-1, c, c+1 signed by old/new/stranger's/no key, a commit written by git-bug with the new key and a commit appended to a bug the victim holds; the victim pulls with Pull or Fetch+MergeAll, everything at once, identity first or bugs first; every remote bug differing from the local one is judged with the key model over the identity versions in the victim's repository at that moment; observed = merge status and local ref movement through the long-lived cache, the same pulls on a shadow replica with the plain entity functions, Resolve through the long-lived cache, and a freshly opened cache over the victim's repository at the end; one case per session, distinct = (initial keys, preload, per round: kind of key change, delivery, carrier signing)",
+		" || long-lived cache sessions: a victim keeps one RepoCache open, pulls and loads a bug of the keyed author, then the author changes keys in 1..3 rounds on another replica and pushes the new identity version with commits in its name at c-1, c, c+1 signed by old/new/stranger's/no key, a commit written by git-bug with the new key and a commit appended to a bug the victim holds; the victim pulls with Pull or Fetch+MergeAll, everything at once, identity first or bugs first; every remote bug differing from the local one is judged with the key model over the identity versions in the victim's repository at that moment; observed = merge status and local ref movement through the long-lived cache, the same pulls on a shadow replica with the plain entity functions, Resolve through the long-lived cache, and a freshly opened cache over the victim's repository at the end; one case per session, distinct = (initial keys, preload, per round: kind of key change, delivery, carrier signing)"+
+		" || multi-commit bugs: two keyed authors (disjoint keys, own version histories) and a keyless author write chains and one-fork DAGs of 2..8 crafted commits on ONE bug: a valid use of a key followed by a commit signed with that key after its removal / in the other author's name / unsigned / by a stranger's key, a not-yet-valid key that is validly used later, on the same branch or on a sibling branch, as ordinary or as merge commit, each with its accept counterpart (new key, own key), plus seed-determined random chains biased towards keys the bug has already seen a valid signature of; every commit is judged on its own by the key model (its author's version blobs, its time, its raw object); observed = bug.Read with the ref at every commit and bug.MergeAll of the whole bug on the second replica; expected accepted <=> every commit in reach is accepted; one case per bug, distinct = (topology, reader, versions, per commit author:signing class)"+
+		" || refused writes: right before every write by git-bug's own writer in nokey mode (create, append, merge; fixed cases on top of the sampled ones) the writer's refs/bugs/* are listed with `git for-each-ref` and every bug is read; when git-bug refuses or fails the write, the refs must be listed unchanged, resolve to commits (`git cat-file -t`), no ref may have appeared, and every bug must read with the same operations; same comparison for a pull that needs a merge commit in the user's name after the user's key change in another clone (first key / rotation) x (new private key in the keyring: the merge must succeed and be validly signed / not: whatever git-bug answers) x (identity+bug Fetch/MergeAll / RepoCache.Pull)",
 		40, []string{
+			"refused writes: a write that git-bug answers with an error is expected to leave every refs/bugs/* ref of the writing repository at the commit it pointed at and every bug readable with the operations it had (the statement makes the refusal the right answer for an unsignable commit; a refusal that moves or breaks the ref makes the local commits unreachable)",
+			"multi-commit bugs: a bug is expected to be refused as soon as one commit in reach of its ref must be refused, accepted otherwise; no expectation on which of several offending commits is named in the error",
 			"timeline scripts: a key set given to Identity.Mutate while the bugs-edit clock stands at c is taken to be introduced at c: it must not apply to commits with a time < c and must apply to commits with a time > c (until the next change); commits at exactly c are not judged when the two readings differ (on this tree a version records clock.Time(), the last used time, so a key change made right after the author's own commit puts that commit under the new key set; counted under timeline/commit_at_the_clock_value_of_a_key_change)",
 			"long-lived cache sessions: the author always lets a keyless author's commit advance the clock before a key change, so commits accepted earlier stay valid; a bug already loaded in the cache is not expected to be re-verified",
 			"keys in force and signature validity are computed from gitraw's version blobs and `git cat-file commit` output; only the OpenPGP verification primitive is shared with git-bug",
